@@ -1,4 +1,7 @@
 import EinxModel.Proofs.IR
+import EinxModel.Proofs.IRGeneric
+import EinxModel.IR.PrimX
+import EinxModel.Denote.Expr2
 /-!
 C01 — every built-in operation computes exactly its loop-notation meaning.
 
@@ -53,6 +56,48 @@ theorem validate_sound (prog : List Instr) (outs : List Nat) (expected : List (T
         simp only [hsel, pure, Except.pure, Except.ok.injEq] at hs
         subst hs
         exact selectRegs_map _ sregs outs ts hsel
+
+/-- Naturality for the extended instruction set (reductions, einsum, matmul, flip, roll) that the driver
+executes (`evalProgG planInstrX`). -/
+theorem program_natural_extended {α β : Type} {A : Alg α} {B : Alg β} {h : α → β} (hh : Hom A B h)
+    (prog : List InstrX) (regs : List (Tensor α)) :
+    evalProgG planInstrX B prog (regs.map (Tensor.map h)) =
+      (evalProgG planInstrX A prog regs).map (·.map (Tensor.map h)) :=
+  evalProgG_map planInstrX hh prog regs
+
+/-- **Soundness of the validator the driver runs** (`validateG planInstrX`): acceptance implies that for
+all integer inputs of the validated shapes and all interpretations of the elementary and reduction
+symbols the program computes the denotation.  (Reductions are canonical multiset cells `red:<f>`; see
+`IR/PrimX.lean` for the modelling decisions about numpy that this rests on.) -/
+theorem validate_sound_extended (prog : List InstrX) (outs : List Nat) (expected : List (Tensor Cell))
+    (I : String → List Int → Int) (bad : Int) (xs : List (Tensor Int))
+    (hlen : ∀ x ∈ xs, x.data.length = prod x.shape)
+    (hv : validateG planInstrX prog (xs.map (·.shape)) outs expected = true) :
+    ∃ regs, evalProgG planInstrX (intAlgOf I bad) prog xs = .ok regs ∧
+      outs.map (fun r => regs[r]?) =
+        expected.map (fun t => some (t.map (evalCell (intAlgOf I bad) xs))) :=
+  validateG_sound planInstrX prog outs expected I bad xs hlen hv
+
+/-- Symbolic equivalence of two programs (used for graphs before/after optimisation, C05) implies equal
+outputs for all inputs and interpretations. -/
+theorem equiv_sound_extended (p1 p2 : List InstrX) (outs1 outs2 : List Nat)
+    (I : String → List Int → Int) (bad : Int) (xs : List (Tensor Int))
+    (hlen : ∀ x ∈ xs, x.data.length = prod x.shape)
+    (hv : equivG planInstrX p1 p2 (xs.map (·.shape)) outs1 outs2 = true) :
+    ∃ r1 r2, evalProgG planInstrX (intAlgOf I bad) p1 xs = .ok r1 ∧
+      evalProgG planInstrX (intAlgOf I bad) p2 xs = .ok r2 ∧
+      outs1.map (fun r => r1[r]?) = outs2.map (fun r => r2[r]?) :=
+  equivG_sound planInstrX p1 p2 outs1 outs2 I bad xs hlen hv
+
+/-- Non-vacuity (extended set): `np.sum(x, axis=1)` on shape (2,3) is accepted against the denotation of
+`a [b] -> a`, and `np.sum(x, axis=0)` is rejected. -/
+example :
+    let e_in := Denote.Expr.list [.axis "a" 2, .br (.axis "b" 3)]
+    let e_out := Denote.Expr.axis "a" 2
+    (match Denote.denoteReduce "sum" e_in e_out with
+      | .ok exp => validateG planInstrX [.reduce "sum" 0 [1] false] [[2, 3]] [1] [exp]
+          && !validateG planInstrX [.reduce "sum" 0 [0] false] [[2, 3]] [1] [exp]
+      | .error _ => false) = true := by decide +kernel
 
 /-- Non-vacuity: the validator accepts the program `transpose; reshape` against the denotation of
 `a b c -> (c a) b` on shape (2,3,2) -- computed by the same definitions the driver runs. -/
